@@ -110,7 +110,7 @@ impl<'id, ET: Tag, const TAG_BITS: u32, const ARITY: usize>
 impl<'id, ET: Tag, const TAG_BITS: u32, const ARITY: usize>
     InnerNode<manager::Edge<'id, Self, ET, TAG_BITS>> for NodeWithLevel<'id, ET, TAG_BITS, ARITY>
 {
-    const ARITY: usize = 2;
+    const ARITY: usize = ARITY;
 
     type ChildrenIter<'a>
         = BorrowedEdgeIter<
